@@ -370,6 +370,44 @@ func btcClass(tx btcjson.TxRawResult) string {
 }
 
 // ---------------------------------------------------------------------------------------------- ops
+//
+// Every loop op has two forms:
+//   classify <op> <items>          => what each single deposit does on its own (the classes) — the loop under test is NOT run
+//   <op> <items> <classes>         => what the loop under test emits — the single deposits are NOT classified here; <classes> is the
+//                                     result of the separate classify run and is only passed through to the Lean side
+// (the legacy one-argument form `<op> <items>` => `<classes>|<result>` does both in one go).
+
+var c06Phase string // "" both | "classes" | "run"
+
+// clsOf evaluates a single-deposit classification unless only the loop is wanted.
+func clsOf(f func() string) string {
+	if c06Phase == "run" {
+		return "?"
+	}
+	return f()
+}
+
+// c06Result assembles an op's answer for the current phase.
+func c06Result(classes string, run func() string) string {
+	switch c06Phase {
+	case "classes":
+		return classes
+	case "run":
+		return run()
+	}
+	return classes + "|" + run()
+}
+
+// c06Wrap: an op called with two arguments runs only its loop.
+func c06Wrap(f Op) Op {
+	return func(a []string) string {
+		if len(a) >= 2 && c06Phase == "" {
+			c06Phase = "run"
+			defer func() { c06Phase = "" }()
+		}
+		return f(a)
+	}
+}
 
 func init() {
 	// evm <items ;>  — DepositEventHandler.ProcessDeposits over events.Listener.FetchDeposits
@@ -378,21 +416,24 @@ func init() {
 		cl := &c06Client{}
 		classes := []string{}
 		for _, it := range its {
-			classes = append(classes, evmClass(evmLog(it, nil), nil))
+			it := it
+			classes = append(classes, clsOf(func() string { return evmClass(evmLog(it, nil), nil) }))
 			cl.deposits = append(cl.deposits, evmLog(it, nil))
 		}
-		ch := make(chan []*message.Message, 300)
-		eh := eventHandlers.NewDepositEventHandler(events.NewListener(cl), c06EthHandler(), c06Bridge, 1, ch)
-		var out map[uint8][]*message.Message
-		cls := guarded(func() error {
-			var err error
-			out, err = eh.ProcessDeposits(big.NewInt(1), big.NewInt(2))
-			return err
+		return c06Result(joinOr(classes, ","), func() string {
+			ch := make(chan []*message.Message, 300)
+			eh := eventHandlers.NewDepositEventHandler(events.NewListener(cl), c06EthHandler(), c06Bridge, 1, ch)
+			var out map[uint8][]*message.Message
+			cls := guarded(func() error {
+				var err error
+				out, err = eh.ProcessDeposits(big.NewInt(1), big.NewInt(2))
+				return err
+			})
+			if cls != "ok" {
+				return cls
+			}
+			return groups(out)
 		})
-		if cls != "ok" {
-			return joinOr(classes, ",") + "|" + cls
-		}
-		return joinOr(classes, ",") + "|" + groups(out)
 	}
 	// retry1 <tx / tx / …>  each tx = items ;  or E (receipt cannot be fetched) — RetryV1EventHandler.HandleEvents
 	ops["C06.retry1"] = func(a []string) string {
@@ -417,13 +458,16 @@ func init() {
 				r.Logs = append(r.Logs, &lg)
 			}
 			for _, it := range items(tx, ";") {
-				cs = append(cs, evmClass(evmLog(it, nil), st))
+				it := it
+				cs = append(cs, clsOf(func() string { return evmClass(evmLog(it, nil), st) }))
 			}
 			cl.receipts[h] = r
 			classes = append(classes, joinOr(cs, ","))
 		}
-		return joinOr(classes, "/") + "|" + collect(func(ch chan []*message.Message) error {
-			return eventHandlers.NewRetryV1EventHandler(zerolog.Nop().With(), events.NewListener(cl), c06EthHandler(), &c06Store{st}, c06Bridge, 1, big.NewInt(5), ch).HandleEvents(big.NewInt(1), big.NewInt(2))
+		return c06Result(joinOr(classes, "/"), func() string {
+			return collect(func(ch chan []*message.Message) error {
+				return eventHandlers.NewRetryV1EventHandler(zerolog.Nop().With(), events.NewListener(cl), c06EthHandler(), &c06Store{st}, c06Bridge, 1, big.NewInt(5), ch).HandleEvents(big.NewInt(1), big.NewInt(2))
+			})
 		})
 	}
 	// sub <items ;> — Substrate FungibleTransferEventHandler.ProcessDeposits
@@ -431,22 +475,25 @@ func init() {
 		conn := &c06SubConn{}
 		classes := []string{}
 		for _, it := range items(a[0], ";") {
-			classes = append(classes, subClass(it))
+			it := it
+			classes = append(classes, clsOf(func() string { return subClass(it) }))
 			conn.evts = append(conn.evts, subEvent(it))
 		}
-		eh := subListener.NewFungibleTransferEventHandler(zerolog.Nop().With(), 1, subHandler(), make(chan []*message.Message, 300), conn)
-		var out map[uint8][]*message.Message
-		cls := guarded(func() error {
-			var err error
-			out, err = eh.ProcessDeposits(big.NewInt(1), big.NewInt(2))
-			return err
+		return c06Result(joinOr(classes, ","), func() string {
+			eh := subListener.NewFungibleTransferEventHandler(zerolog.Nop().With(), 1, subHandler(), make(chan []*message.Message, 300), conn)
+			var out map[uint8][]*message.Message
+			cls := guarded(func() error {
+				var err error
+				out, err = eh.ProcessDeposits(big.NewInt(1), big.NewInt(2))
+				return err
+			})
+			if cls != "ok" {
+				return cls
+			}
+			return groups(out)
 		})
-		if cls != "ok" {
-			return joinOr(classes, ",") + "|" + cls
-		}
-		return joinOr(classes, ",") + "|" + groups(out)
 	}
-	// subretry <block / block / …>  each block = items ;  or T (retry for a block that is not final yet) or B (undecodable retry event)
+	// subretry <block / block / …>  each block = items ;  or T (retry for a block that is not final yet), B (undecodable retry event) or R (block events cannot be fetched)
 	ops["C06.subretry"] = func(a []string) string {
 		conn := &c06SubConn{blocks: map[uint64][]*parser.Event{}}
 		classes := []string{}
@@ -461,10 +508,13 @@ func init() {
 				conn.evts = append(conn.evts, &parser.Event{Name: subEvents.RetryEvent, Fields: registry.DecodedFields{
 					&registry.DecodedField{Name: "deposit_on_block_height", Value: "garbage"}}})
 				continue
+			case "R": // the node cannot serve the events of the retried block (RPC failure): the whole range is reported as failed
+				classes = append(classes, "R")
 			default:
 				cs := []string{}
 				for _, it := range items(blk, ";") {
-					cs = append(cs, subClass(it))
+					it := it
+					cs = append(cs, clsOf(func() string { return subClass(it) }))
 					conn.blocks[height] = append(conn.blocks[height], subEvent(it))
 				}
 				if len(cs) == 0 {
@@ -475,8 +525,10 @@ func init() {
 			conn.evts = append(conn.evts, &parser.Event{Name: subEvents.RetryEvent, Fields: registry.DecodedFields{
 				&registry.DecodedField{Name: "deposit_on_block_height", Value: types.NewU128(*new(big.Int).SetUint64(height))}}})
 		}
-		return joinOr(classes, "/") + "|" + collect(func(ch chan []*message.Message) error {
-			return subListener.NewRetryEventHandler(zerolog.Nop().With(), conn, subHandler(), 1, ch).HandleEvents(big.NewInt(1), big.NewInt(2))
+		return c06Result(joinOr(classes, "/"), func() string {
+			return collect(func(ch chan []*message.Message) error {
+				return subListener.NewRetryEventHandler(zerolog.Nop().With(), conn, subHandler(), 1, ch).HandleEvents(big.NewInt(1), big.NewInt(2))
+			})
 		})
 	}
 	// btc <tx ;> — Bitcoin FungibleTransferEventHandler.ProcessDeposits (one configured resource)
@@ -484,20 +536,26 @@ func init() {
 		conn := &c06BtcConn{}
 		classes := []string{}
 		for i, it := range items(a[0], ";") {
+			i, it := i, it
 			conn.txs = append(conn.txs, btcTx(i, it))
-			classes = append(classes, btcClass(btcTx(i, it)))
+			classes = append(classes, clsOf(func() string { return btcClass(btcTx(i, it)) }))
 		}
-		eh := btcHandler(conn, make(chan []*message.Message, 300))
-		var out map[uint8][]*message.Message
-		cls := guarded(func() error {
-			var err error
-			out, err = eh.ProcessDeposits(big.NewInt(100))
-			return err
+		return c06Result(joinOr(classes, ","), func() string {
+			eh := btcHandler(conn, make(chan []*message.Message, 300))
+			var out map[uint8][]*message.Message
+			cls := guarded(func() error {
+				var err error
+				out, err = eh.ProcessDeposits(big.NewInt(100))
+				return err
+			})
+			if cls != "ok" {
+				return cls
+			}
+			return groups(out)
 		})
-		if cls != "ok" {
-			return joinOr(classes, ",") + "|" + cls
-		}
-		return joinOr(classes, ",") + "|" + groups(out)
+	}
+	for _, k := range []string{"evm", "retry1", "sub", "subretry", "btc"} {
+		ops["C06."+k] = c06Wrap(ops["C06."+k])
 	}
 	gens["C06"] = genC06
 }
@@ -792,6 +850,8 @@ func genC06(g *G) {
 				blks = append(blks, "T")
 			case 1:
 				blks = append(blks, "B")
+			case 2:
+				blks = append(blks, "R")
 			default:
 				blks = append(blks, list(g.Intn(5), subItem))
 			}
